@@ -752,7 +752,7 @@ func C03(c *fw.Ctx) {
 		}
 		c.Inc("fault_matrix", inj.class+"|"+site, 1)
 		rp := &fw.Replay{Jobs: []*proto.Job{j}, Results: []interface{}{res}, Expected: map[string]interface{}{
-			"class": inj.class, "file": inj.off.File, "line": inj.off.Line + inj.bodyLine, "files": filesAsStrings(j.Files)}}
+			"class": inj.class, "file": inj.off.File, "line": inj.off.Line + inj.bodyLine + inj.off.BodyShift, "files": filesAsStrings(j.Files)}}
 		if sig, what := crashSig(res); sig != "" {
 			c.Violate(sig, what, rp)
 			return
@@ -770,6 +770,9 @@ func C03(c *fw.Ctx) {
 		}
 		gotFile := relName(res, e.File)
 		wantLine := inj.off.Line + inj.bodyLine
+		if inj.bodyLine > 0 {
+			wantLine += inj.off.BodyShift
+		}
 		located := gotFile == inj.off.File && e.Line == wantLine
 		if inj.syntactic && !located {
 			// The body is missing in the text: the scanner takes what follows for the body (a response code is a
